@@ -135,3 +135,61 @@ def frames_received(gdb, closure, side, conn_addr, iface):
 def frames_sent(gdb, closure, conn_addr):
     parent = gdb.Frame('wl_closure_send', {'closure': closure, 'connection': connection_value(gdb, conn_addr)})
     return gdb.Frame('serialize_closure', {}, older=parent)
+
+
+class PluginWorld:
+    pass
+
+
+def make_plugin(display=None, stop=None):
+    """real ConnectionManager + Controller + gdb Plugin over the fake gdb"""
+    import logging
+    logging.disable(logging.CRITICAL)
+    gdb, extract, plugin = install()
+    gdb.reset()
+    from core import wl, matcher
+    from core.connection_manager import ConnectionManager
+    from core.output import Output
+    from frontends.tui.controller import Controller
+    from core.wl import protocol
+    from lib.stubs import RecStream
+    protocol.interfaces.clear()
+    wl.Message.base_time = 0.0
+    extract.__dict__.pop('int', None)
+    extract.__dict__.pop('float', None)
+    extract.time_now = lambda: 0.0
+    plugin.time_now = lambda: 0.0
+    extract.gdb_fast_access_map.clear()
+    w = PluginWorld()
+    w.gdb, w.extract, w.pmod = gdb, extract, plugin
+    w.out, w.err = RecStream(), RecStream()
+    w.output = Output(False, True, w.out, w.err)
+    w.manager = ConnectionManager()
+    w.ctl = Controller(w.output, w.manager, display if display is not None else matcher.always, stop if stop is not None else matcher.never)
+    w.plugin = plugin.Plugin(w.output, w.manager, w.ctl, w.ctl)
+    bps = {b.location: b for b in gdb._State.breakpoints}
+    w.bp_destroy = bps['wl_connection_destroy']
+    w.bp_invoke = bps['wl_closure_invoke']
+    w.bp_dispatch = bps['wl_closure_dispatch']
+    w.bp_send = bps['serialize_closure']
+    w.commands = {c.cmd_name: c for c in gdb._State.commands}
+    return w
+
+
+def fire_message(w, addr, thread, name, sent, tag=None, side='client'):
+    """libwayland hits one of the closure breakpoints; returns what stop() tells GDB"""
+    gdb = w.gdb
+    clo = build_closure(gdb, Closure(name, 'u', [{'code': 'u', 'value': tag if tag is not None else 0}], None, 1, 'wl_display'))
+    gdb._State.thread = gdb._Thread(thread)
+    if sent:
+        gdb._State.frame = frames_sent(gdb, clo, addr)
+        return w.bp_send.stop()
+    gdb._State.frame = frames_received(gdb, clo, side, addr, 'wl_display')
+    return w.bp_invoke.stop()
+
+
+def fire_destroy(w, addr, thread=1):
+    gdb = w.gdb
+    gdb._State.thread = gdb._Thread(thread)
+    gdb._State.frame = gdb.Frame('wl_connection_destroy', {'connection': connection_value(gdb, addr)})
+    return w.bp_destroy.stop()
